@@ -139,3 +139,40 @@ func VerifC05_WiringCompiled()     { zzWiring(false, 2) }
 func VerifC05_WiringInterpreted()  { zzWiring(true, 2) }
 func VerifC05_WiringCompiled3()    { zzWiring(false, 3) }
 func VerifC05_WiringInterpreted3() { zzWiring(true, 3) }
+
+// raw request paths (empty segments, blanks, trailing slashes): whatever the
+// router makes of the path, both modes answer alike and never with a 500
+func VerifC05_WiringRawPath() {
+	module, err := parseSource("@ GET /a/:p {\n  > {v: p}\n}\n\n@ GET /a/b/c {\n  > {k: 1}\n}\n")
+	if err != nil {
+		panic("harness program does not parse: " + err.Error())
+	}
+	path := "/" + zzverif.StringFrom("path", 5, "/ab c")
+	ask := func(interpreted bool) (int, interface{}) {
+		_, _, _, router, err := setupRoutes(module, "/app/main.glyph", interpreted)
+		if err != nil {
+			zzverif.Fail("setupRoutes rejected a valid program")
+		}
+		rec := &zzRec{}
+		before := zzverif.JSONCount()
+		createHandler(router)(rec, &http.Request{Method: "GET", Header: http.Header{}, URL: &url.URL{Path: path}, RemoteAddr: "10.0.0.1:1"})
+		var body interface{}
+		if zzverif.Symbolic() {
+			if zzverif.JSONCount() > before {
+				body = zzNorm(zzverif.JSONValue(zzverif.JSONCount() - 1))
+			}
+		} else {
+			body = zzNorm(zzLastJSON(rec))
+		}
+		return rec.status, body
+	}
+	cs, cb := ask(false)
+	is, ib := ask(true)
+	zzverif.Assert(cs == 200 || cs == 404, "raw path: compiled mode answers neither 200 nor 404")
+	zzverif.Assert(is == 200 || is == 404, "raw path: interpreted mode answers neither 200 nor 404")
+	zzverif.Assert(cs == is, "raw path: the two modes disagree on whether the request matches")
+	if cs == 200 && is == 200 {
+		zzverif.Assert(zzSameJSON(cb, ib), "raw path: the two modes bind different parameters")
+	}
+	zzverif.Reach("rawpath")
+}
